@@ -42,6 +42,23 @@ type handle struct {
 	root bool
 }
 
+// liveIter is an iterator kept alive while the list changes.
+type liveIter struct {
+	it      *fun.Iterator[int]
+	list    int
+	reverse bool
+	cur     *handle // the element it yielded last (nil: not advanced yet)
+	dead    bool    // has reported the end
+	unsure  bool    // rests on an element that left the list
+}
+
+func (it *liveIter) name() string {
+	if it.reverse {
+		return "Reverse() iterator"
+	}
+	return "Iterator()"
+}
+
 type world struct {
 	t         vkit.TB
 	lists     [2]*dt.List[int]
@@ -53,6 +70,7 @@ type world struct {
 	nhand     int
 	emptyPops int
 	cls       map[string]bool
+	its       []*liveIter
 
 	failing bool
 }
@@ -478,7 +496,87 @@ func (w *world) applyStep(o Op) {
 		if !same([]int(nl.Slice()), want) || nl.Len() != len(want) {
 			w.fail("JSON round trip gives %v (Len %d), model %v", nl.Slice(), nl.Len(), want)
 		}
+		// the document MarshalJSON returns is the caller's: it does not
+		// change when the other list (or this one again) is marshalled
+		direct, err := l.MarshalJSON()
+		if err != nil || string(direct) != string(wb) {
+			w.fail("MarshalJSON()=%s (%v), encoding/json of the model gives %s", direct, err, wb)
+		}
+		_, _ = w.lists[1-li].MarshalJSON()
+		other := &dt.List[int]{}
+		other.PushBack(-99)
+		other.PushBack(-98)
+		other.PushBack(-97)
+		_, _ = other.MarshalJSON()
+		if string(direct) != string(wb) {
+			w.fail("the document MarshalJSON() returned changed from %s to %s when other lists were marshalled afterwards", wb, direct)
+		}
 		structural = false
+	case "IterOpen":
+		// an iterator that is kept across the following operations:
+		// "values added ahead of the iterator, will be visible"
+		if len(w.its) < 4 {
+			it := &liveIter{list: li, reverse: o.V%2 == 1}
+			if it.reverse {
+				it.it = l.Reverse()
+			} else {
+				it.it = l.Iterator()
+			}
+			w.its = append(w.its, it)
+			w.cls["live-iterator"] = true
+		}
+		structural = false
+	case "IterStep":
+		structural = false
+		if len(w.its) == 0 {
+			return
+		}
+		it := w.its[o.A%len(w.its)]
+		v, err := it.it.ReadOne(context.Background())
+		switch {
+		case it.dead:
+			if err == nil {
+				w.fail("a live iterator yielded %d after it had reported the end", v)
+			}
+		case it.unsure:
+			it.dead = err != nil
+		default:
+			seq := w.seq[it.list]
+			pos := -1
+			if it.reverse {
+				pos = len(seq)
+			}
+			if it.cur != nil {
+				pos = -2
+				for i, h := range seq {
+					if h == it.cur {
+						pos = i
+					}
+				}
+			}
+			if pos == -2 {
+				// the element the iterator rests on has left the list:
+				// what follows is not asserted
+				it.unsure, it.dead = true, err != nil
+				return
+			}
+			next := pos + 1
+			if it.reverse {
+				next = pos - 1
+			}
+			if next < 0 || next >= len(seq) {
+				if err == nil {
+					w.fail("a live %s yielded %d although nothing lies ahead of it (it rests on position %d of %v)", it.name(), v, pos, w.vals(it.list))
+				}
+				it.dead = true
+				return
+			}
+			if err != nil || v != seq[next].val {
+				w.fail("a live %s resting on position %d of %v yielded (%d, %v); the element ahead of it holds %d", it.name(), pos, w.vals(it.list), v, err, seq[next].val)
+			}
+			it.cur = seq[next]
+			w.cls["live-iterator-step-after-mutation"] = true
+		}
 	case "UnmarshalInto":
 		// UnmarshalJSON appends the decoded values to the receiver
 		src := w.vals(1 - li)
@@ -612,6 +710,11 @@ func propListModel(t *rapid.T) {
 		"Remove":     func(*rapid.T) { w.apply(Op{Op: "Remove", A: hnd("a")}) },
 		"Drop":       func(*rapid.T) { w.apply(Op{Op: "Drop", A: hnd("a")}) },
 		"Set":        func(*rapid.T) { w.apply(Op{Op: "Set", A: hnd("a"), V: smallVal()}) },
+		"IterOpen": func(t *rapid.T) {
+			w.apply(Op{Op: "IterOpen", L: rapid.IntRange(0, 1).Draw(t, "list"), V: rapid.IntRange(0, 1).Draw(t, "reverse")})
+		},
+		"IterStep":  func(t *rapid.T) { w.apply(Op{Op: "IterStep", A: rapid.IntRange(0, 3).Draw(t, "iter")}) },
+		"IterStep2": func(t *rapid.T) { w.apply(Op{Op: "IterStep", A: rapid.IntRange(0, 3).Draw(t, "iter")}) },
 		"ElemJSON": func(t *rapid.T) {
 			op := "ElemJSON"
 			if rapid.IntRange(0, 3).Draw(t, "null") == 0 {
